@@ -112,6 +112,8 @@ func (dg *DefaultGrouper) CalcPodGroupAnnotations(topOwner *unstructured.Unstruc
 	}
 
 	maps.Copy(pgAnnotations, topOwner.GetAnnotations())
+	// when the pod itself is the grouping owner, do not inherit the annotation the pod-grouper writes on it
+	delete(pgAnnotations, commonconsts.PodGroupAnnotationForPod)
 
 	return pgAnnotations
 }
